@@ -12,7 +12,7 @@ use crate::driver::{Budget, Check, Cx, Failure, Spec, Tier};
 use crate::gen::Gen;
 use crate::util::{catch, diff_scans, panic_sig, restore, scan};
 use cosmwasm_std::testing::{MockApi, MockStorage};
-use cosmwasm_std::{coin, Addr, BlockInfo, Checksum, Coin, CosmosMsg, QueryRequest, Timestamp, WasmMsg};
+use cosmwasm_std::{coin, Addr, Api, BlockInfo, Checksum, Coin, CosmosMsg, QueryRequest, Timestamp, WasmMsg};
 use cw_multi_test::{App, AppResponse, BankKeeper, BankSudo, BasicAppBuilder, DistributionKeeper, Executor, GovFailingModule, IbcFailingModule, StakeKeeper, StargateFailing, SudoMsg, WasmKeeper, WasmSudo};
 use judge::{compare_responses, compare_state, compare_traces, okerr_owners, Actual, Disc, Observed, Pred};
 use model::{Fixed, Interp, MState, Resp, Site};
@@ -20,7 +20,9 @@ use puppet::{install, make_code, take_trace, PMsg, XModule, XMsg, XQuery, XQuery
 use std::collections::{BTreeMap, BTreeSet};
 use types::*;
 
-pub type TApp = App<BankKeeper, MockApi, MockStorage, XModule, WasmKeeper<XMsg, XQuery>, StakeKeeper, DistributionKeeper, IbcFailingModule, GovFailingModule, StargateFailing>;
+/// the App under test uses the crate's own Bech32 Api; the reference interpreter and the harness
+/// compute addresses with cosmwasm-std's `MockApi` (same codec, independent implementation)
+pub type TApp = App<BankKeeper, cw_multi_test::MockApiBech32, MockStorage, XModule, WasmKeeper<XMsg, XQuery>, StakeKeeper, DistributionKeeper, IbcFailingModule, GovFailingModule, StargateFailing>;
 
 pub struct World {
     pub prefix: &'static str,
@@ -75,7 +77,7 @@ impl World {
             }
         }
         let keeper = if setup.addr_pool > 0 { WasmKeeper::<XMsg, XQuery>::new().with_address_generator(PoolGen(setup.addr_pool as u64)) } else { WasmKeeper::<XMsg, XQuery>::new() };
-        let app: TApp = BasicAppBuilder::<XMsg, XQuery>::new_custom().with_api(MockApi::default().with_prefix(prefix)).with_wasm(keeper).with_custom(XModule).build(|router, api, storage| {
+        let app: TApp = BasicAppBuilder::<XMsg, XQuery>::new_custom().with_api(cw_multi_test::MockApiBech32::new(prefix)).with_wasm(keeper).with_custom(XModule).build(|router, api, storage| {
             for (a, c) in inits {
                 router.bank.init_balance(storage, &a, c).unwrap();
             }
@@ -236,7 +238,9 @@ impl World {
             o.contracts.insert(a.clone(), (c.code_id, c.creator.clone(), c.admin.clone(), c.label.clone(), c.created, c.kv.iter().map(|(k, v)| (k.clone(), v.clone())).collect()));
         }
         for (a, m) in &st.bank {
-            if a == model::STAKING_MODULE {
+            // plain names that are not addresses can hold coins (the bank takes recipients unchecked)
+            // but cannot be asked about; they stay covered by the supply and by what they can spend
+            if a == model::STAKING_MODULE || model::api().addr_validate(a).is_err() {
                 continue;
             }
             let mut v: Vec<(String, u128)> = m.iter().filter(|(_, x)| **x > 0).map(|(d, x)| (d.clone(), *x)).collect();
@@ -247,7 +251,7 @@ impl World {
         }
         o.xmarks = st.xmarks.clone();
         for ((d, v), a) in &st.deleg {
-            if *a > 0 {
+            if *a > 0 && model::api().addr_validate(d).is_ok() {
                 o.delegations.insert((d.clone(), v.clone()), *a);
             }
         }
@@ -1041,8 +1045,8 @@ impl Check for TreeCheck {
 /// C13: the cross product {string class} x {position} x {entry point} x {depth 0-2} x {reply_on},
 /// enumerated completely in every run.
 fn c13_grid() -> Vec<History> {
-    const KEYS: [&str; 16] = ["", " ", "\t", "\u{00a0}", "\u{3000}", "_x", " _x", "__", "\u{2003}_a", "x_", " a ", "é", "a", "a_b", "\u{2003}b", "action"];
-    const TYPES: [&str; 11] = ["", " ", "a", " a ", "\t\n", "x ", "é", "ab", " ab ", "ev", "transfer"];
+    const KEYS: [&str; 19] = ["", " ", "\t", "\u{00a0}", "\u{3000}", "_x", " _x", "__", "\u{2003}_a", "x_", " a ", "é", "a", "a_b", "\u{2003}b", "action", "_contract_address", " _contract_address\n", "_"];
+    const TYPES: [&str; 15] = ["", " ", "a", " a ", "\t\n", "x ", "é", "ab", " ab ", "ev", "transfer", "✓", "wasm-x", "\ttransfer ", "\u{3000}日\u{3000}"];
     #[derive(Clone, Copy)]
     enum Pos {
         AttrKey,
